@@ -50,6 +50,7 @@ type Resolved struct {
 	Headers     map[string]string `json:"headers"`
 	Compression string            `json:"compression"` // "gzip" or "none"
 	Timeout     time.Duration     `json:"timeout"`
+	AltPath string `json:"alt_path,omitempty"` // a second admitted path (an option URL without a path: the signal default, or "/")
 }
 
 // Obs is what an exporter harness reports for one configuration point.
@@ -153,6 +154,8 @@ func endpointGroup(e *Exporter, thorough bool) *Group {
 				HasHost: true, Host: h("o1"), HasPath: true, Path: "/ou/path", Reduce: []int{1, 4}},
 			Alt{Class: "WithEndpoint,WithEndpointURL", Coarse: -1, Opts: []Opt{{Kind: "endpoint", S: h("o1")}, {Kind: "endpointURL", S: "http://" + h("o2") + "/ou/path"}},
 				HasHost: true, Host: h("o2"), HasPath: true, Path: "/ou/path", Reduce: []int{1, 4}},
+			Alt{Class: "WithEndpointURL(no path)", Coarse: -1, Opts: []Opt{{Kind: "endpointURL", S: "http://" + h("o4")}},
+				HasHost: true, Host: h("o4"), HasPath: true, Path: "", Reduce: []int{4}},
 		)
 	} else {
 		g.Opt = append(g.Opt,
@@ -362,6 +365,12 @@ func (x *run) expect(c kase) Resolved {
 			switch {
 			case o.HasPath:
 				want.Path = o.Path
+				if o.Path == "" {
+					// WithEndpointURL("scheme://host:port"): the option names no path. What it means is
+					// not said (the signal's default path, or the URL's own "/"); what it cannot mean
+					// is a path taken from a lower-precedence source
+					want.Path, want.AltPath = x.e.SigPath, "/"
+				}
 			case s.HasPath: // verbatim, "/" when the URL has no path
 				want.Path = s.Path
 				if want.Path == "" {
@@ -472,7 +481,7 @@ func (x *run) eval(c kase) (Obs, []mismatch) {
 		if got.Host != want.Host && ok("endpoint") {
 			bad("endpoint", "endpoint %q, reference %q", got.Host, want.Host)
 		}
-		if x.e.HTTP && got.Path != want.Path && ok("path") {
+		if x.e.HTTP && got.Path != want.Path && !(want.AltPath != "" && (got.Path == want.AltPath || got.Path == "")) && ok("path") { // "" and "/" are the same request target
 			bad("path", "URL path %q, reference %q", got.Path, want.Path)
 		}
 		if hdrString(got.Headers) != hdrString(want.Headers) && ok("headers") {
